@@ -1178,3 +1178,136 @@ def C20(tier, seed):
               'trusted: the global_control life-cycle model (the documented contract), ir2c.py (validated per run by a differential run against '
               'the real function linked with libtbb), cbmc + kissat/cadical']
     return finish('C20', tier, seed, 'model_checking', agg, out, cov, assume, t0, diff['compared'])
+
+
+# ----------------------------------------------------------------------------- C03 (TBB entry points under the scheduler shim)
+def tbb_cases(tier, seed):
+    cases = []
+    lmax = 4 if tier == 'quick' else 5
+    exact = ['signed_tbb', 'fvs_tbb', 'iso_tbb']
+    approx = ['approx_signed_tbb', 'approx_fvs_tbb', 'approx_iso_tbb']
+    graphs = [(4, g) for g in (iso_classes(4) if tier == 'quick' else all_labelled_graphs(4)) if dim(4, g) >= 1]
+    graphs += [(3, [(0, 1), (0, 2), (1, 2)]), (4, [(0, 1), (1, 2), (2, 3)]), (4, []), (0, []), (5, [(0, 1), (2, 3)])]
+    r = rng(seed)
+    for n, g in graphs:
+        m = len(g)
+        for algo in exact:
+            lim = 5 if tier == 'quick' else 6
+            if 'iso' in algo:
+                lim -= 1
+            if m <= lim:
+                cases.append('algo=%s n=%d edges=%s sym=all lmax=%d' % (algo, n, edges_str(g), lmax))
+            else:
+                cases.append('algo=%s n=%d edges=%s sym=%s lmax=%d' % (algo, n, edges_str(g), ','.join(map(str, sorted(r.sample(range(m), 3)))), min(lmax, 4)))
+        for algo in approx:
+            for k in (1, 2):
+                lim = 4 if tier == 'quick' else 5
+                s = 'all' if m <= lim else ','.join(map(str, sorted(r.sample(range(m), 3))))
+                cases.append('algo=%s k=%d n=%d edges=%s sym=%s lmax=%d' % (algo, k, n, edges_str(g), s, min(lmax, 4)))
+    fams = [('K33', 2)] if tier == 'quick' else [('K33', 2), ('K5', 2), ('grid3x3', 2), ('Q3', 2), ('petersen', 2), ('wheel5', 2)]
+    for f, ns in fams:
+        for algo in exact + (['approx_signed_tbb'] if tier == 'thorough' else []):
+            cases += slice_cases(algo, f, ns, seed, variants=1, extra=' lmax=%d cb=%d%s' % (3, 1 if tier == 'quick' else 2, ' k=2' if algo.startswith('approx') else ''))
+    cb = 2 if tier == 'quick' else 3
+    return [c if ' cb=' in c else c + ' cb=%d seed=%d' % (cb, seed) for c in cases]
+
+
+def C03(tier, seed):
+    prop = 'C03'
+    t0 = time.time()
+    h, r_mcb = build_many([('harness/h_tbb.cpp', 'symx'), ('replay/r_mcb.cpp', 'real')])
+    cases = tbb_cases(tier, seed)
+    agg = Agg([prop + ':'])
+    out = Outcome(prop)
+    wcases = [c for c in cases if 'n=4' in c and 'sym=all' in c][:8]
+    ws, _ = run_harness(h, wcases, prop + '-witness', timeout=300, witness=True)
+    if ws.get('witness_hits', 0) <= 0:
+        out.fault = 'witness twin was not violated'
+    leaves = []
+    sched_stats = {'reduces': 0, 'schedules': 0, 'max_alts': 0}
+
+    def keep(rec):
+        if 'reduces' in rec:
+            sched_stats['reduces'] += int(rec['reduces'])
+            sched_stats['schedules'] += int(rec['schedules'])
+            sched_stats['max_alts'] = max(sched_stats['max_alts'], int(rec['max_alts']))
+        if 'ret' in rec and (rec['path'] % 5 == 0 or rec['depth'] == 0) and len(leaves) < 60000:
+            leaves.append(rec)
+    s, log = run_harness(h, cases, prop + '-' + tier, timeout=1200 if tier == 'quick' else 3400, max_paths=4000000)
+    agg.add_summary(s)
+    agg.witness_hits = ws.get('witness_hits', 0)
+    agg.add_log(log, keep)
+    if agg.leaves == 0 or not agg.obl:
+        out.fault = 'no leaf reached an obligation of C03'
+    nvalid = 0
+    if not out.fault:
+        # real libtbb replays of sampled leaf models: exact variants must return the predicted optimum; approximate ones must satisfy the property
+        r = rng(seed)
+        r.shuffle(leaves)
+        lines, meta = [], []
+        for rec in leaves[:(48 if tier == 'quick' else 1500)]:
+            weights, den = instance_weights(rec, rec['model'])
+            if max(weights + [0]) > 2 ** 40:
+                continue
+            lines.append(replay_line(rec, weights, 'double'))
+            meta.append((rec, den))
+        for (rec, den), o in zip(meta, run_replayer_batch(r_mcb, lines)):
+            bad = o.get('crashed') or c01_violated(o) or o['ret'] != o['sum']
+            if not bad:
+                if rec['algo'].startswith('approx'):
+                    bad = approx_bound_violated(o, int(rec['k']))
+                else:
+                    bad = o['sum'] != o['opt'] or fractions.Fraction(o['ret']) != parse_q(rec['ret']) * den
+            if bad:
+                out.fault = 'translation validation: real libtbb build disagrees on %s model %s: %s' % (rec['case'], rec['model'], json.dumps(o)[:300])
+                break
+            nvalid += 1
+    if not out.fault:
+        def pred(o, rec):
+            if c01_violated(o) or o['ret'] != o['sum']:
+                return True
+            if rec['algo'].startswith('approx'):
+                return approx_bound_violated(o, int(rec['k']))
+            return o['sum'] != o['opt']
+        # a schedule-dependent counterexample need not reproduce under real TBB's schedule; such cases are replayed under the shim
+        seen_unrepro = []
+        saved_violated = list(agg.violated)
+        confirm_violations(prop, agg, r_mcb, pred, lambda rec, obl: '%s/%s' % (rec.get('algo'), rec.get('edges')), out)
+        if out.fault and 'did not reproduce' in out.fault and saved_violated:
+            # replay under the shim with concrete weights and the recorded schedule choices
+            redo = []
+            for rec, obl in saved_violated[:10]:
+                weights, _ = instance_weights(rec, obl.get('model') or rec['model'])
+                redo.append('algo=%s n=%s edges=%s sym=none fixed=%s lmax=%s cb=%s seed=%s%s' % (rec['algo'], rec['n'], rec['edges'], ','.join(map(str, weights)), rec['lmax'], rec.get('cb', 3), rec.get('seed', 1),
+                                                                                   (' k=%s' % rec['k']) if rec.get('k') else ''))
+            s2, log2 = run_harness(h, redo, prop + '-confirm', timeout=600)
+            a2 = Agg([prop + ':'])
+            a2.add_log(log2)
+            if a2.violated:
+                out.fault = None
+                for i, (rec, obl) in enumerate(a2.violated[:5]):
+                    rp = os.path.join(cex_dir(), 'C03-replay-shim-%d.json' % i)
+                    json.dump({'property': 'C03', 'replayer': 'harness/h_tbb.cpp under the scheduler shim (schedule-dependent; concrete weights)',
+                               'line': rec['case'], 'choices': rec.get('choices'), 'obligation': obl['name']}, open(rp, 'w'), indent=1)
+                    key = '%s/%s' % (rec.get('algo'), rec.get('edges'))
+                    kf = finding_matches(prop, key)
+                    if kf:
+                        out.n_known += 1
+                        out.known_lines.append('KNOWN-FINDING: property=C03 %s' % kf['text'])
+                    else:
+                        out.n_confirmed += 1
+                        out.violation_lines.append('VIOLATION property=C03 replay=%s' % rp)
+    bounds = {
+        'functions_encoded': ['parmcb::mcb_sva_signed_tbb (OddCycleFinder)', 'mcb_sva_fvs_trees_tbb', 'mcb_sva_iso_trees_tbb (ShortestOddCycleLookup<.., true>)',
+                              'approx_mcb_sva_{signed,fvs_trees,iso_trees}_tbb (NonSpannerEdgesCycleBuilder<.., true>)'],
+        'bounds': 'weights symbolic; every parallel_reduce over a range of length <= lmax (%d) evaluates ALL schedules (leaf partitions x run groupings x join '
+                  'orders) side by side, longer ranges a reduced set of 6; every parallel_for is a symbolic choice among all chunkings/orders up to length 3, '
+                  'else 5 patterns; graphs: 4-vertex graphs with a cycle (quick: one per isomorphism class, m<=5 fully symbolic), small forests/empty graph, '
+                  '2-symbolic slices of K33 and K5 (thorough: more families, K4 fully symbolic for signed/fvs)' % (4 if tier == 'quick' else 5),
+        'schedules_per_reduce_max': sched_stats['max_alts'], 'parallel_reduce_calls': sched_stats['reduces'], 'reduce_schedules_evaluated': sched_stats['schedules'],
+        'outside_bounds': 'the data-race clause (no engine here decides races of real TBB task graphs; real libtbb is only run in the sampled replays); '
+                          'worker counts are not a separate parameter: every worker count induces a subset of the enumerated schedules',
+        'stubs': ['shim/tbb/tbb/tbbshim.hpp: functional parallel_reduce semantics (runs folded from a copy of the identity, order-preserving joins), '
+                  'parallel_for as ordered chunk execution, concurrent_vector::push_back in task execution order'],
+    }
+    return finish(prop, tier, seed, 'model_checking', agg, out, bounds, ASSUME_A, t0, nvalid)
